@@ -1,9 +1,15 @@
 package main
 
 import (
+	"encoding/json"
 	"fmt"
 	"go/ast"
+	"go/token"
 	"go/types"
+	"os"
+	"path/filepath"
+	"reflect"
+	"sort"
 	"strings"
 
 	"golang.org/x/tools/go/packages"
@@ -122,4 +128,106 @@ func checkCacheOnlySuccess(c *Ctx, p *packages.Package) {
 func init() {
 	addMutant(Mutant{Prop: "C18", Name: "memoised-failure", File: "internal/targets/loader.go",
 		Old: "\treturn l.resolveInheritance(raw)\n}", New: "\tconfig, err := l.resolveInheritance(raw)\n\tl.resolving[name] = config == nil\n\treturn config, err\n}", Expect: "R18.7"})
+}
+
+// checkEnumValidation (R18.8): when validateConfig restricts a field to a set of values, every value the shipped
+// target descriptions use for that field must be in the set.
+func checkEnumValidation(c *Ctx, p *packages.Package) {
+	c.Rule("R18.8", "every value a shipped target description gives to a field is accepted by the resolver's validation of that field", 0)
+	fd := findFunc(p, "Resolver.validateConfig")
+	if fd == nil {
+		c.Undecided("R18.8", "targets.Resolver.validateConfig", 0, "function not found")
+		return
+	}
+	c.nfuncs++
+	info := p.TypesInfo
+	cfgT := structOf(lookupNamed(p.Types, "Config"))
+	tagOf := map[string]string{}
+	if cfgT != nil {
+		for i := 0; i < cfgT.NumFields(); i++ {
+			tag := reflect.StructTag(cfgT.Tag(i)).Get("json")
+			if j := strings.Index(tag, ","); j >= 0 {
+				tag = tag[:j]
+			}
+			tagOf[cfgT.Field(i).Name()] = tag
+		}
+	}
+	// allowed sets: switch config.F { case "a", "b": ... } and slices.Contains([]string{...}, config.F)
+	allowed := map[string]map[string]bool{}
+	at := map[string]token.Pos{}
+	field := func(e ast.Expr) string {
+		se, ok := ast.Unparen(e).(*ast.SelectorExpr)
+		if !ok {
+			return ""
+		}
+		if _, ok := tagOf[se.Sel.Name]; ok {
+			return se.Sel.Name
+		}
+		return ""
+	}
+	ast.Inspect(fd.Body, func(n ast.Node) bool {
+		switch x := n.(type) {
+		case *ast.SwitchStmt:
+			if f := field(x.Tag); f != "" {
+				hasDefaultErr := false
+				set := map[string]bool{}
+				for _, st := range x.Body.List {
+					cc := st.(*ast.CaseClause)
+					if cc.List == nil {
+						hasDefaultErr = nodeHas(cc, func(y ast.Node) bool { r, ok := y.(*ast.ReturnStmt); return ok && returnsError(info, r) })
+					}
+					for _, e := range cc.List {
+						if s, ok := constString(info, e); ok {
+							set[s] = true
+						}
+					}
+				}
+				if hasDefaultErr {
+					allowed[f], at[f] = set, x.Pos()
+				}
+			}
+		case *ast.CallExpr:
+			if g := calleeOf(info, x); g != nil && g.Name() == "Contains" && len(x.Args) == 2 {
+				if f := field(x.Args[1]); f != "" {
+					if cl, ok := x.Args[0].(*ast.CompositeLit); ok {
+						set := map[string]bool{}
+						for _, e := range cl.Elts {
+							if s, ok := constString(info, e); ok {
+								set[s] = true
+							}
+						}
+						allowed[f], at[f] = set, x.Pos()
+					}
+				}
+			}
+		}
+		return true
+	})
+	if len(allowed) == 0 {
+		c.Exists("R18.8", "targets.Resolver.validateConfig restricts no field to an enumeration", fd.Pos(), "nothing to compare")
+		return
+	}
+	files, _ := filepath.Glob(filepath.Join(repoDir, "targets", "*.json"))
+	sort.Strings(files)
+	for f, set := range allowed {
+		tag := tagOf[f]
+		var missing []string
+		seen := map[string]bool{}
+		for _, file := range files {
+			data, err := os.ReadFile(file)
+			if err != nil {
+				continue
+			}
+			var m map[string]any
+			if json.Unmarshal(data, &m) != nil {
+				continue
+			}
+			if v, ok := m[tag].(string); ok && v != "" && !set[v] && !seen[v] {
+				seen[v] = true
+				missing = append(missing, fmt.Sprintf("%q (%s)", v, filepath.Base(file)))
+			}
+		}
+		c.Check(len(missing) == 0, "R18.8", "targets.Resolver.validateConfig accepts every shipped value of "+f, at[f], "all shipped values are in the allowed set",
+			"shipped descriptions use "+strings.Join(missing, ", ")+" for "+tag+", which validateConfig rejects: these targets can no longer be resolved")
+	}
 }
